@@ -62,9 +62,9 @@ fn generate(seed: u64, n: usize, tier: &str, csv: &str, out: &mut impl Write) {
             }
         }
     }
-    // every target at least twice, then weighted random
+    // every target at least six times, then weighted random
     for (k, _) in &targets {
-        for _ in 0..2 {
+        for _ in 0..6 {
             writeln!(out, "D|{}|{}", k, rng.next() >> 16).unwrap();
         }
     }
